@@ -51,6 +51,10 @@ def run(m):
 if __name__ == '__main__':
     ms = [json.loads(l) for l in subprocess.run(['/verif/bin/mutgen', '/repo'], capture_output=True, text=True).stdout.splitlines()]
     ms = [m for m in ms if filt in m['file']]
+    kinds = os.environ.get('SWEEP_KINDS')  # comma-separated prefixes of mutant kinds to keep (with MUTGEN_B=1: 'cond,delete,float+1')
+    if kinds:
+        ms = [m for m in ms if any(m['kind'].startswith(k) for k in kinds.split(','))]
+    ms = [m for m in ms if not m['file'].endswith('_string.go')]
     src = {}
     for m in ms:
         if m['file'] not in src: src[m['file']] = open('/repo/' + m['file']).read().splitlines()
